@@ -569,9 +569,11 @@ class MinFlowDecomp(pathmodel.AbstractPathModelDAG): # Note that we inherit from
 
         self._lowerbound_k = self.optimization_options.get("lowerbound_k", 1)
 
-        all_weights = set({int(self.G.edges[e][self.flow_attr]) for e in self.G.edges() if self.flow_attr in self.G.edges[e]})
+        # Only the flow values that the paths have to explain (i.e. not those of ignored edges) count here
+        all_weights = set({int(self.G.edges[e][self.flow_attr]) for e in self.G.edges() if self.flow_attr in self.G.edges[e] and e not in self.edges_to_ignore})
         
-        self._lowerbound_k = max(self._lowerbound_k, math.ceil(math.log2(len(all_weights))))
+        if len(all_weights) > 0:
+            self._lowerbound_k = max(self._lowerbound_k, math.ceil(math.log2(len(all_weights))))
 
         # The edges from the global source / to the global sink are not part of the decomposition problem 
         # (as in the k-models, they are ignored): a source whose out-going edges are all ignored needs no path
